@@ -23,6 +23,7 @@ import random
 import numpy as np
 
 from .. import core, encode, inputs, pool
+from . import rel_common as rc
 
 LN2 = math.log(2.0)
 TLA, CFG = "Trace_Distance.tla", "Trace_Distance.cfg"
@@ -77,21 +78,23 @@ def base_record(job):
 
 
 def call_distance(name, A, mode, L=None):
-    """-> (D, R or None, B or None, P or None) of one distance routine."""
+    """-> (D, R or None, B or None, P or None) of one distance routine.  A and L are thunks that
+    build a fresh argument array (so that a non-contiguous layout survives: ndarray.copy() would
+    return a C-contiguous array)."""
     import bct
     if name == "distance_bin":
-        return bct.distance_bin(A.copy()), None, None, None
+        return bct.distance_bin(A()), None, None, None
     if name == "breadthdist":
-        R, D = bct.breadthdist(A.copy())
+        R, D = bct.breadthdist(A())
         return D, R, None, None
     if name == "reachdist":
-        R, D = bct.reachdist(A.copy())
+        R, D = bct.reachdist(A())
         return D, R, None, None
     if name == "distance_wei":
-        D, B = bct.distance_wei(L.copy())
+        D, B = bct.distance_wei(L())
         return D, None, B, None
     if name == "distance_wei_floyd":
-        D, B, P = bct.distance_wei_floyd(A.copy(), transform=TRANSFORM[mode])
+        D, B, P = bct.distance_wei_floyd(A(), transform=TRANSFORM[mode])
         return D, None, B, P
     raise KeyError(name)
 
@@ -100,24 +103,48 @@ def exec_job(job):
     import bct
     rec = base_record(job)
     mode = job["mode"]
-    A = input_of(job["K"], mode)
-    L = input_of(job["K"], "len")          # the same lengths as a plain length matrix
-    L[L < 0] = 0
+    # the SAME mathematical matrix as another dtype / memory layout (rel_common): the record for
+    # TLC (Lm) is built from the integer codes, only the array handed to bctpy changes; which
+    # dtype a routine may get for the job's draw is decided by arg_dtype (below).
+    dt, lay = job.get("draw", job.get("dtype", "float64")), job.get("layout", "C")
+    A0 = input_of(job["K"], mode)
+    L0 = input_of(job["K"], "len")         # the same lengths as a plain length matrix
+    L0[L0 < 0] = 0
     base = job["fn"].split(":")[0]
+
+    def arg(name):                          # thunk: a fresh argument array for routine `name`
+        M = L0 if name == "distance_wei" else A0
+        return lambda: rc.as_variant(M, arg_dtype(name, dt, mode), lay)
+    for nm in TRAITS:                       # a lossy cast is the harness's fault: MachineryError, not "raised"
+        arg(nm)()
     try:
         if job["kind"] == "dist":
-            out = call_distance(base, A, mode, L)
+            out = call_distance(base, arg(base), mode, arg("distance_wei"))
         elif job["kind"] == "agree":
-            out = [call_distance(nm, A, mode, L)[0] for nm in job["routines"]]
+            out = [call_distance(nm, arg(nm), mode, arg("distance_wei"))[0] for nm in job["routines"]]
         elif base == "charpath":
-            Din = bct.distance_bin(A.copy()) if job["src"] == "distance_bin" else bct.distance_wei(L.copy())[0]
-            out = (Din,) + tuple(bct.charpath(Din.copy())[:2])
+            Din = bct.distance_bin(arg("distance_bin")()) if job["src"] == "distance_bin" else \
+                bct.distance_wei(arg("distance_wei")())[0]
+            # options: include_diagonal=False is the statement's "pairs of distinct nodes";
+            # include_infinite=False changes the mean only when the matrix HANDED to charpath holds
+            # an inf, so it is passed (when the job asks) only for a matrix without one - there
+            # both settings denote the same mean and the default-option clause applies
+            kw = {}
+            if job.get("opt_diag"):
+                kw["include_diagonal"] = False
+            if job.get("opt_noinf") and not np.isinf(np.asarray(Din, dtype=float)).any():
+                kw["include_infinite"] = False
+            Dh = rc.as_variant(Din, "float64", job.get("din_layout", "C"))
+            out = (Din,) + tuple(bct.charpath(Dh, **kw)[:2])
         elif base == "efficiency_bin":
-            out = bct.efficiency_bin(A.copy())
+            Ab = arg("efficiency_bin")
+            out = bct.efficiency_bin(Ab()) if not job.get("opt_local_kw") else bct.efficiency_bin(Ab(), local=False)
         elif base == "efficiency_wei":
-            out = bct.efficiency_wei(A.copy())
+            A = arg("efficiency_wei")
+            out = bct.efficiency_wei(A()) if not job.get("opt_local_kw") else \
+                bct.efficiency_wei(A(), local=job["opt_local_kw"])
         elif base == "rout_efficiency":
-            out = bct.rout_efficiency(A.copy(), transform=TRANSFORM[mode])[0]
+            out = bct.rout_efficiency(arg("rout_efficiency")(), transform=TRANSFORM[mode])[0]
         else:
             raise KeyError(job["fn"])
     except pool.CallTimeout:
@@ -149,27 +176,71 @@ def exec_job(job):
 
 
 # -------------------------------------------------------------------- inputs
+# what each routine may be handed for a drawn dtype (rel_common.admissible: bool only to routines
+# documented for binary networks; float32 only where the outputs are integer-valued - the binary
+# distances and Dijkstra on integer lengths, not floyd (1e-10 tie tolerance) and not the real-
+# valued means; uint8 only where the routine copies to float first - floyd / rout_efficiency
+# without a transform; distance_bin and reachdist take matrix powers in the argument's dtype)
+TRAITS = {"distance_bin": dict(binary=True, structural=True),
+          "breadthdist": dict(binary=True, structural=True),
+          "reachdist": dict(binary=True, structural=True),
+          "distance_wei": dict(structural=True),
+          "distance_wei_floyd": dict(), "rout_efficiency": dict(),
+          "efficiency_bin": dict(binary=True), "efficiency_wei": dict()}
+
+
+def arg_dtype(routine, dtype, mode):
+    floats_first = routine in ("distance_wei_floyd", "rout_efficiency") and TRANSFORM[mode] is None
+    return rc.admissible(dtype, floats_first=floats_first, **TRAITS[routine])
+
+
 ALGO = {"distance_bin": "algebraic", "breadthdist": "bfs", "reachdist": "reach",
         "distance_wei": "dijkstra", "distance_wei_floyd": "floyd"}
 CODES = {"bin": [1], "len": [1, 2, 3], "inv": [1, 2, 4], "log": [0, 1, 2]}
 
 
-def code_matrix(rng, n, edges, und, mode, loops=0):
+def code_matrix(rng, n, edges, und, mode, loops=0, codes=None):
+    codes = codes or CODES[mode]
     K = [[-1] * n for _ in range(n)]
     for (i, j) in edges:
-        v = rng.choice(CODES[mode])
+        v = rng.choice(codes)
         K[i][j] = v
         if und:
             K[j][i] = v
     for i in rng.sample(range(n), min(loops, n)):
-        K[i][i] = rng.choice(CODES[mode])
+        K[i][i] = rng.choice(codes)
     return K
 
 
-def jobs_for(K, mode, src):
-    """all real calls made for one input."""
+def dtype_family(mode, K):
+    """which argument dtypes denote the SAME input (module header: encoding of lengths)"""
+    if mode == "bin":
+        return rc.DT_BIN                    # 0/1 matrix
+    if mode == "len":
+        return rc.DT_COUNT                  # integer lengths 1..3
+    if mode == "inv":
+        return rc.DT_FLOAT                  # weights 1, 1/2, 1/4 (floyd and the means: no float32)
+    if all(v <= 0 for row in K for v in row):
+        return rc.DT_COUNT                  # 'log' of a 0/1 weight matrix (every length 0)
+    return rc.DT_FLOAT                      # 'log': -log of a float32 is a float32, not exact in ln 2
+
+
+def jobs_for(K, mode, src, rng=None, variant=rc.PLAIN):
+    """all real calls made for one input.  rng given: option keywords of charpath /
+    efficiency_* are drawn (singly and in pairs; all of them denote the default semantics)."""
     def J(fn, kind, **kw):
-        return dict(fn=fn, kind=kind, mode=mode, K=K, src_kind=src, **kw)
+        base = fn.split(":")[0]
+        base = {"charpath": kw.get("src"), "distance_agree": None}.get(base, base)
+        # `dtype` = what the job's own routine is handed (failure tags), `draw` = the input's draw
+        eff = arg_dtype(base, variant[0], mode) if base else variant[0]
+        return dict(fn=fn, kind=kind, mode=mode, K=K, src_kind=src, dtype=eff, draw=variant[0],
+                    layout=variant[1], **kw)
+
+    def opts():
+        if rng is None:
+            return {}
+        return dict(opt_diag=rng.randrange(2), opt_noinf=rng.randrange(2),
+                    din_layout=rng.choice(rc.LAYOUTS))
     tr = {"bin": "none", "len": "none", "inv": "inv", "log": "log"}[mode]
     out = []
     if mode == "bin":
@@ -177,22 +248,37 @@ def jobs_for(K, mode, src):
         for nm in five:
             out.append(J(nm if nm != "distance_wei_floyd" else nm + ":none", "dist", algo=ALGO[nm]))
         out.append(J("distance_agree", "agree", routines=five))
-        out.append(J("charpath", "mean", src="distance_bin"))
-        out.append(J("efficiency_bin", "mean"))
-        out.append(J("efficiency_wei", "mean"))
+        out.append(J("charpath", "mean", src="distance_bin", **opts()))
+        out.append(J("efficiency_bin", "mean", opt_local_kw=(rng.choice([0, 0, 1]) if rng else 0)))
+        out.append(J("efficiency_wei", "mean", opt_local_kw=(rng.choice([0, 0, "global"]) if rng else 0)))
         out.append(J("rout_efficiency:none", "mean"))
     elif mode in ("len", "inv"):
         out.append(J("distance_wei", "dist", algo="dijkstra"))
         out.append(J("distance_wei_floyd:" + tr, "dist", algo="floyd"))
         out.append(J("distance_agree", "agree", routines=["distance_wei", "distance_wei_floyd"]))
-        out.append(J("charpath", "mean", src="distance_wei"))
+        out.append(J("charpath", "mean", src="distance_wei", **opts()))
         out.append(J("rout_efficiency:" + tr, "mean"))
         if mode == "inv":
-            out.append(J("efficiency_wei", "mean"))
+            out.append(J("efficiency_wei", "mean", opt_local_kw=(rng.choice([0, 0, "global"]) if rng else 0)))
     else:
         out.append(J("distance_wei_floyd:log", "dist", algo="floyd"))
         out.append(J("rout_efficiency:log", "mean"))
     return out
+
+
+MODES = ["bin", "len", "inv", "log"]
+
+
+def draw_codes(rng, mode):
+    """the code set of one input: the full tie-rich set, a single value (every path length is a
+    multiple of it: maximal ties), or - 'log' - weight exactly 1 everywhere (all lengths 0)."""
+    full = CODES[mode]
+    r = rng.random()
+    if mode == "bin" or r < 0.6:
+        return full
+    if r < 0.8:
+        return [rng.choice(full)]
+    return rng.sample(full, 2)
 
 
 def build_jobs(ctx):
@@ -202,7 +288,6 @@ def build_jobs(ctx):
     weighted = ["len", "inv", "log"]
     plan = [("dir", 3, None, 3), ("dir", 4, 220 if q else None, 1),
             ("und", 3, None, 3), ("und", 4, None, 2 if q else 3), ("und", 5, 120 if q else None, 1)]
-    c = 0
     for kind, n, cap, nw in plan:
         graphs = inputs.model_graphs(ctx, kind, n)
         if cap:
@@ -210,33 +295,55 @@ def build_jobs(ctx):
         for edges in graphs:
             und = kind == "und"
             jobs += jobs_for(code_matrix(rng, n, edges, und, "bin"), "bin", "model")
-            for _ in range(nw):
-                mode = weighted[c % 3]
-                c += 1
+            for mode in (weighted if nw >= 3 else rng.sample(weighted, nw)):
                 jobs += jobs_for(code_matrix(rng, n, edges, und, mode), mode, "model")
     # self-loops (a nonzero diagonal is still a graph; distances between distinct nodes
     # do not depend on it)
     for edges in inputs.sample(rng, inputs.model_graphs(ctx, "dir", 3), 20 if q else 64):
         jobs += jobs_for(code_matrix(rng, 3, edges, False, "bin", loops=rng.randint(1, 2)), "bin", "model-loops")
         jobs += jobs_for(code_matrix(rng, 3, edges, False, "len", loops=rng.randint(1, 2)), "len", "model-loops")
-    # seeded random larger graphs: sparse/disconnected, isolated nodes, directed and not
+    # ---- the same model inputs as another dtype / memory layout, with option keywords: a sample
+    #      of the inputs above, every call of the input repeated under one drawn variant
+    plain_inputs = {}
+    for j in jobs:
+        plain_inputs.setdefault((j["mode"], str(j["K"])), (j["K"], j["mode"], j["src_kind"]))
+    for K, mode, src in inputs.sample(rng, sorted(plain_inputs.values(), key=str), 160 if q else 1500):
+        jobs += jobs_for(K, mode, src + "-variant", rng, rc.draw_variant(rng, dtype_family(mode, K)))
+    # seeded random larger graphs: sparse/disconnected, isolated nodes, directed and not;
+    # every choice (direction, isolation, mode, code set, self-loops, dtype, layout, option
+    # keywords) is an independent draw, so all combinations can co-occur
     for k in range(60 if q else 900):
         n = rng.randint(6, 9 if q else 12)
-        und = k % 2 == 0
+        und = rng.random() < 0.5
         p = rng.choice([0.12, 0.2, 0.35])
         edges = [(i, j) for i in range(n) for j in range(n)
                  if (i < j if und else i != j) and rng.random() < p]
-        if k % 5 == 0 and n > 2:                       # isolate a node
+        if rng.random() < 0.25 and n > 2:              # isolate a node
             z = rng.randrange(n)
             edges = [e for e in edges if z not in e]
-        mode = ["bin", "len", "inv", "log"][k % 4]
-        jobs += jobs_for(code_matrix(rng, n, edges, und, mode), mode, "random")
+        mode = rng.choice(MODES)
+        K = code_matrix(rng, n, edges, und, mode, loops=rng.choice([0, 0, 0, 1, 2]), codes=draw_codes(rng, mode))
+        jobs += jobs_for(K, mode, "random", rng, rc.draw_variant(rng, dtype_family(mode, K), p_plain=0.3))
+    # structured families (rel_common.structured_support): long paths and cycles, stars, complete
+    # and complete bipartite graphs, caterpillars, rings of cliques, components of equal and of
+    # different sizes, isolated nodes - undirected and randomly oriented
+    for k in range(70 if q else 900):
+        name, n, edges = rc.structured_support(rng, 5, 9 if q else 12)
+        und = rng.random() < 0.5
+        if not und:
+            edges = rc.orient(rng, edges)
+        mode = rng.choice(MODES)
+        K = code_matrix(rng, n, edges, und, mode, loops=rng.choice([0, 0, 0, 1]), codes=draw_codes(rng, mode))
+        jobs += jobs_for(K, mode, "struct-" + name, rng, rc.draw_variant(rng, dtype_family(mode, K), p_plain=0.3))
     return jobs
 
 
 # ----------------------------------------------------------------------- run
 def what(job, rec, clause):
-    return "mode=%s n=%d source=%s" % (job["mode"], len(job["K"]), job.get("src_kind"))
+    opt = {k: job[k] for k in ("opt_diag", "opt_noinf", "din_layout", "opt_local_kw") if job.get(k)}
+    return "mode=%s n=%d source=%s dtype=%s layout=%s%s" % (
+        job["mode"], len(job["K"]), job.get("src_kind"), job.get("dtype", "float64"), job.get("layout", "C"),
+        " options=%s" % opt if opt else "")
 
 
 def run(ctx):
@@ -244,7 +351,8 @@ def run(ctx):
     jobs = build_jobs(ctx)
     recs = pool.run_jobs(__name__, jobs)
     verdicts = ctx.validate(TLA, CFG, recs)
-    ctx.judge(jobs, recs, verdicts, what)
+    ctx.judge(jobs, rc.tag_failures(ctx, jobs, recs, verdicts), verdicts, what)
+    ctx.extra["argument_variants"] = rc.variant_counts(jobs)
     seen = set()
     for j, r in zip(jobs, recs):
         if r.get("kind") == "dist" and not r.get("raised") and not r.get("malformed"):
@@ -255,9 +363,14 @@ def run(ctx):
     ctx.exhaustive = True
     ctx.rule = ("every digraph on 3 nodes and every graph on 3..4 nodes (TLC-enumerated), %s, each as 0/1 "
                 "matrix and with tie-rich lengths {1,2,3} / dyadic weights {1,1/2,1/4} under 'inv' and under 'log'; "
-                "self-loop variants; seeded random graphs n in 6..%d (sparse, disconnected, isolated nodes, "
-                "directed and undirected); one record per real call; non-trivial = distinct (input, mode) whose "
-                "observed shortest paths include one of >= 2 edges"
+                "self-loop variants; a sample of these inputs again as another argument dtype (bool/uint8/int32/"
+                "int64/float32 where the values allow it) and memory layout (Fortran, transposed view, window or "
+                "strided view of a larger array) with option keywords of charpath/efficiency_* drawn singly and in "
+                "pairs; seeded random graphs n in 6..%d (sparse, disconnected, isolated nodes, self-loops, single-"
+                "value code sets, directed and undirected) and structured families (paths, cycles, stars, complete, "
+                "complete bipartite, caterpillars, rings of cliques, equal/unequal components, isolated nodes; also "
+                "randomly oriented), all choices drawn independently from the seeded RNG; one record per real call; "
+                "non-trivial = distinct (input, mode) whose observed shortest paths include one of >= 2 edges"
                 % ("220 sampled digraphs on 4 nodes, 120 sampled graphs on 5 nodes" if ctx.quick
                    else "every digraph on 4 nodes, every graph on 5 nodes", 9 if ctx.quick else 12))
     for kind in ("dist", "mean", "agree"):
@@ -271,7 +384,12 @@ def run(ctx):
         "paths on all small inputs) correctly",
         "lengths are small integers in exact units (weights dyadic for 'inv'/'log'; 'log' outputs divided by ln 2 "
         "and required to be integral within 1e-9); means are compared as exact fractions against round(x*1e6)",
-        "charpath is called with its default options and judged on the matrix it was handed",
+        "charpath is judged on the matrix it was handed, under the default semantics (pairs of distinct nodes, "
+        "infinite distances included); include_diagonal=False / include_infinite=False are passed only where they "
+        "denote that same mean (the latter only for a matrix without inf); efficiency_*(local=False/'global') likewise",
+        "argument dtype/layout variants carry the same mathematical values (lossless cast checked by the harness); "
+        "a boolean array is given only to the routines documented for binary networks, the weight/length routines "
+        "get uint8 instead; 'log' inputs stay float64 unless every weight is 1",
         "only ordered pairs of distinct nodes are judged (diagonals of breadthdist/reachdist are cycle lengths)",
         "weights/lengths of the model graphs are chosen by the harness RNG (VERIF_SEED)"]
     return ctx.finish()
